@@ -57,6 +57,7 @@ def main():
     ap.add_argument("--skip-confirm", action="store_true")
     a = ap.parse_args()
     meta = {"id": a.id, "breaks_property": a.prop, "package": a.pkgdir, "confirmed": {}, "checks": {}}
+    a.src = os.path.abspath(a.src)
     patch = os.path.join(a.src, "patch.diff")
     demo = os.path.join(a.src, a.demo)
     wt = f"/tmp/seedchk-{a.id}"
@@ -117,11 +118,12 @@ def main():
             sh(["git", "-C", "/repo", "checkout", "--", "."], "/")
     dst = f"/verif/seeded/{a.id}"
     os.makedirs(dst, exist_ok=True)
-    shutil.copy(patch, dst)
-    for f in glob.glob(os.path.join(a.src, "zz_mut_demo*.go")):
-        shutil.copy(f, os.path.join(dst, os.path.basename(f) + ".txt"))
-    if os.path.exists(os.path.join(a.src, "README.md")):
-        shutil.copy(os.path.join(a.src, "README.md"), dst)
+    if os.path.abspath(dst) != a.src:
+        shutil.copy(patch, dst)
+        for f in glob.glob(os.path.join(a.src, "zz_mut_demo*.go")):
+            shutil.copy(f, os.path.join(dst, os.path.basename(f) + ".txt"))
+        if os.path.exists(os.path.join(a.src, "README.md")):
+            shutil.copy(os.path.join(a.src, "README.md"), dst)
     old = {}
     if os.path.exists(os.path.join(dst, "meta.json")):
         old = json.load(open(os.path.join(dst, "meta.json")))
